@@ -531,7 +531,7 @@ def nontrivial(features):
 PLAIN = ['X', 'Y', 'Z', 'W', 'C', 'G', 'H', 'V']
 TRICKY = ['t', 'e', 'j', 'I', 'S', 'x1', 'X_1', 'a_b_', 'Y_', 'is_open', 'Pin', 'not_X', 'in_', 'orX', 'iff',
           'None_', 'Xor', 'log10', 'np_', 'self_', 'type', 'match', 'case', 'expo', 'maxi', 'Min', 'ifelse',
-          'lambda_', 'T', 'N', 'pi']
+          'lambda_', 'T', 'N', 'pi', 'nan', 'NaN', 'inf', 'null', 'none', 'NA', 'true']
 FUNCTION_LIKE = ['exp', 'max', 'log', 'min', 'abs']   # used as plain variables (never also called in the same program)
 PARAM_NAMES = ['a', 'b', 'alpha_1', 'k', 'theta', 'in_p', 'if_']
 ERROR_NAMES = ['u', 'eps', 'err_1', 'v', 'or_e']
